@@ -4,24 +4,24 @@
 #   (3) run the property's own check (quick tier, then thorough if quick misses) against the changed tree; record everything in meta.json.
 # usage: bin/seed_admit.sh <ID> <a|b> [source dir, default /tmp/wtout/<ID>/<v>]
 export GOFLAGS=-mod=mod GOPROXY=off GOSUMDB=off GOTOOLCHAIN=local
-id=$1; v=$2; src=${3:-/tmp/wtout/$id/$v}
+id=$1; v=$2; src=${3:-/tmp/wtout/$id/$v}; tv=${4:-$v}   # tv: name of the variant under seeded/ (round 2: c, d)
 patch=$src/patch.diff; rebased=false
 [ -f $src/patch.rebased.diff ] && { patch=$src/patch.rebased.diff; rebased=true; }
 demo=$(ls $src/*_test.go 2>/dev/null | head -1)
-wt=/tmp/admit/$id$v; mkdir -p /tmp/admit; rm -rf $wt
+wt=/tmp/admit/$id$tv; mkdir -p /tmp/admit; rm -rf $wt
 git -C /repo worktree add -q --detach $wt ${SEED_BASE:-0c0509d} || exit 2
 cleanup() { git -C /repo worktree remove --force $wt 2>/dev/null; }
 trap cleanup EXIT
 cd $wt
 cp $demo ./zz_seed_demo_test.go
 rx=$(grep -oE '^func Test[A-Za-z0-9_]+' zz_seed_demo_test.go | sed 's/func //' | paste -sd'|')
-if timeout 600 go test -count=1 -run "^($rx)\$" . >/tmp/admit/$id$v.clean.log 2>&1; then clean=pass; else clean=FAIL; fi
-git apply $patch 2>/tmp/admit/$id$v.apply.log || { echo "$id$v: PATCH-DOES-NOT-APPLY"; exit 3; }
-if timeout 600 go test -count=1 -run "^($rx)\$" . >/tmp/admit/$id$v.patched.log 2>&1; then patched=PASS; else patched=fail; fi
+if timeout 600 go test -count=1 -run "^($rx)\$" . >/tmp/admit/$id$tv.clean.log 2>&1; then clean=pass; else clean=FAIL; fi
+git apply $patch 2>/tmp/admit/$id$tv.apply.log || { echo "$id$tv: PATCH-DOES-NOT-APPLY"; exit 3; }
+if timeout 600 go test -count=1 -run "^($rx)\$" . >/tmp/admit/$id$tv.patched.log 2>&1; then patched=PASS; else patched=fail; fi
 rm -f zz_seed_demo_test.go
-go test -json -vet=off -count=1 ./... > /tmp/admit/$id$v.suite.json 2>&1
-(cd analysis_test && go test -json -vet=off -count=1 ./... >> /tmp/admit/$id$v.suite.json 2>&1)
-suite=$(python3 - /tmp/admit/$id$v.suite.json <<'PY'
+go test -json -vet=off -count=1 ./... > /tmp/admit/$id$tv.suite.json 2>&1
+(cd analysis_test && go test -json -vet=off -count=1 ./... >> /tmp/admit/$id$tv.suite.json 2>&1)
+suite=$(python3 - /tmp/admit/$id$tv.suite.json <<'PY'
 import json,sys
 fails=set(); passes=0
 for l in open(sys.argv[1]):
@@ -43,11 +43,11 @@ if [ $qrc -ne 1 ]; then
   tsig=$(echo "$thorough" | grep -E "^  sig=" | head -2 | cut -c1-200 | tr '\n' '|' | tr '"' "'")
 fi
 tag=$(echo "$wt" | md5sum | cut -c1-10); rm -rf .build/alt-$tag .build/harness-$tag*
-echo "$id$v: demo_clean=$clean demo_patched=$patched suite(pass/unexpected_fail)=$suite quick_rc=$qrc thorough_rc=$trc rebased=$rebased"
+echo "$id$tv: demo_clean=$clean demo_patched=$patched suite(pass/unexpected_fail)=$suite quick_rc=$qrc thorough_rc=$trc rebased=$rebased"
 if [ "$clean" = pass ] && [ "$patched" = fail ] && [ "${suite#*/}" = 0 ]; then
-  d=seeded/$id$v; mkdir -p $d
+  d=seeded/$id$tv; mkdir -p $d
   cp $patch $d/patch.diff; cp $demo $d/demo_test.go; [ -f $src/NOTES.md ] && cp $src/NOTES.md $d/NOTES.md
-  python3 - "$d" "$id" "$v" "$clean" "$patched" "$suite" "$qrc" "$trc" "$rebased" "$qsig" "$tsig" "${SEED_BASE:-0c0509d}" <<'PY'
+  python3 - "$d" "$id" "$tv" "$clean" "$patched" "$suite" "$qrc" "$trc" "$rebased" "$qsig" "$tsig" "${SEED_BASE:-0c0509d}" <<'PY'
 import json,sys,re,os
 d,id_,v,clean,patched,suite,qrc,trc,rebased,qsig,tsig,head=sys.argv[1:13]
 notes=open(os.path.join(d,'NOTES.md')).read() if os.path.exists(os.path.join(d,'NOTES.md')) else ''
